@@ -10,7 +10,35 @@ import (
 	"github.com/nsqio/nsq/nsqd"
 )
 
-func init() { checks["C16"] = checkC16 }
+type syncDelayJob struct {
+	Spec    nsqd.SyncSpec `json:"spec"`
+	Bound   int           `json:"bound"`
+	MaxRuns int           `json:"max_runs"`
+}
+
+func init() {
+	checks["C16"] = checkC16
+	vx.Register("syncdelay", func(arg json.RawMessage) (interface{}, error) {
+		var j syncDelayJob
+		if err := json.Unmarshal(arg, &j); err != nil {
+			return nil, err
+		}
+		body := func() vx.Out { return nsqd.RunSync(j.Spec) }
+		res := vx.Delay(body, j.Bound, vx.Opt{MaxRuns: j.MaxRuns, MaxSteps: 3000000})
+		kept := res.Found[:0]
+		for _, f := range res.Found {
+			sched, _ := f.Replay.([]int)
+			if vx.Confirm(body, sched, f.Sig, 5) {
+				f.Replay = map[string]interface{}{"kind": "syncdelay", "spec": j.Spec, "schedule": sched}
+				kept = append(kept, f)
+			} else {
+				res.Infra = append(res.Infra, "NONDETERMINISM: violation not reproduced 5/5: "+f.Sig)
+			}
+		}
+		res.Found = kept
+		return res, nil
+	})
+}
 
 func runCaseC16(kind string, spec json.RawMessage) (vx.Out, bool) {
 	if kind != "sync" {
@@ -24,8 +52,8 @@ func runCaseC16(kind string, spec json.RawMessage) (vx.Out, bool) {
 func checkC16(tier string) int {
 	rep := vx.NewReport("C16", tier, "fault_enumeration")
 	vx.JobTimeout = 4 * time.Minute
-	rep.Rule = "fault enumeration: every sequence of <= N churn operations (create/delete topic and channel, ephemeral channel, first publish to a new topic, heartbeat ticks) x every sequence of <= M faults applied to successive connection attempts to nsqlookupd (refuse, accept-then-close, stall, garbage, replies with length prefix -1 / -2^31 / max-body+1 / 2^31-1, truncated reply, E_INVALID to IDENTIFY, restart with empty state) x one or two lookupds; plus every sequence of <= K operations over {set the lookupd list at runtime to {}, {1}, {2}, {1,2}; create a topic; heartbeat tick} x <= 1 fault; on a real nsqd and real nsqlookupd(s) joined by in-memory connections; afterwards 4 heartbeat intervals of virtual time and a comparison of every lookupd's registrations with nsqd's topics/channels; a publish and a delivery must succeed after every step. distinct = distinct (case, outcome) pairs"
-	rep.Assumptions = []string{"default schedule (the notification path's interleavings are explored by the E1/E2 checks of C06/C08)", "virtual time; nsqd's hard-coded 15 s heartbeat and 1 s lookupd I/O deadlines are real code"}
+	rep.Rule = "fault enumeration: every sequence of <= N churn operations (create/delete topic and channel, ephemeral channel, first publish to a new topic, heartbeat ticks) x every sequence of <= M faults applied to successive connection attempts to nsqlookupd (refuse, accept-then-close, stall, garbage, replies with length prefix -1 / -2^31 / max-body+1 / 2^31-1, truncated reply, E_INVALID to IDENTIFY, restart with empty state) x one or two lookupds; plus every sequence of <= K operations over {set the lookupd list at runtime to {}, {1}, {2}, {1,2}; create a topic; heartbeat tick} x <= 1 fault; on a real nsqd and real nsqlookupd(s) joined by in-memory connections; afterwards 4 heartbeat intervals of virtual time and a comparison of every lookupd's registrations with nsqd's topics/channels; a publish and a delivery must succeed after every step; one lookupd whose HTTP side fails (refused, 500, garbage, empty) next to a healthy one when a topic is first created by a publish; E2: create/delete/re-create scripts of topics and channels issued back to back with every schedule of <= d deviations over the notification path (Notify goroutines -> notifyChan -> lookupLoop). distinct = distinct (case, outcome) pairs"
+	rep.Assumptions = []string{"default schedule for the fault and reconfiguration cases; delay-bounded schedules for the notification-path scripts", "virtual time; nsqd's hard-coded 15 s heartbeat and 1 s lookupd I/O deadlines are real code"}
 	faults := []string{"ok", "refuse", "close", "stall", "garbage", "neglen", "minlen", "overlimit", "hugelen", "trunc", "einvalid", "restart"}
 	ops := []string{"mk:a", "mkch:a:x", "rmch:a:x", "rm:a", "mkeph", "pub:fresh", "tick"}
 	nOps, nFaults := 2, 2
@@ -63,7 +91,64 @@ func checkC16(tier string) int {
 			jobs = append(jobs, caseJob{"sync", mustJSON(nsqd.SyncSpec{Lookupds: 2, Faults: fs, Ops: os})})
 		}
 	}
+	// one lookupd's HTTP side fails while the other is healthy: a topic first created by a
+	// publish still starts with the channels the healthy one knows
+	nHTTP := 0
+	for _, hf := range []string{"refuse", "500", "garbage", "empty"} {
+		for _, lk := range []int{1, 2} {
+			for _, os := range [][]string{{"pub:fresh"}, {"mk:a", "pub:fresh"}, {"tick", "pub:fresh"}} {
+				jobs = append(jobs, caseJob{"sync", mustJSON(nsqd.SyncSpec{Lookupds: lk, Ops: os, PreKnown: true, HTTPFault: hf})})
+				nHTTP++
+			}
+		}
+	}
+	rep.Extra["http_fault_cases"] = nHTTP
 	runCases(rep, jobs, 16)
+	// E2: the schedules of the notification path (Notify goroutines -> notifyChan ->
+	// lookupLoop) for delete-then-recreate and create-then-delete, <= 1 deviation
+	var dj []interface{}
+	var dspecs []nsqd.SyncSpec
+	dBound, dRunsMax := 1, 3000
+	if tier == "thorough" {
+		dBound, dRunsMax = 2, 60000
+	}
+	for _, os := range [][]string{{"mk:a", "rm:a"}, {"mk:a", "rm:a", "mk:a"}, {"mk:a", "mkch:a:x", "rmch:a:x"}, {"mk:a", "mkch:a:x", "rmch:a:x", "mkch:a:x"}, {"mk:a", "mk:b"}, {"mk:a", "mkch:a:x", "rm:a"},
+		{"mk:a", "mkch:a:x", "rm:a", "mk:a"}, {"mk:a", "mkch:a:x", "rm:a", "mkch:a:x"}, {"mkeph", "mk:a", "rm:a"}} {
+		for _, lk := range []int{1, 2} {
+			if lk == 2 && len(os) > 3 {
+				continue
+			}
+			sp := nsqd.SyncSpec{Lookupds: lk, Ops: os, Explore: true}
+			dspecs = append(dspecs, sp)
+			dj = append(dj, syncDelayJob{Spec: sp, Bound: dBound, MaxRuns: dRunsMax})
+		}
+	}
+	dRuns := 0
+	vx.Par("syncdelay", dj, func(i int, res json.RawMessage, errStr, crash string) {
+		if crash != "" || errStr != "" {
+			rep.InfraError("sync delay " + dspecs[i].String() + ": " + crash + errStr)
+			return
+		}
+		var r vx.Res
+		json.Unmarshal(res, &r)
+		dRuns += r.Runs
+		rep.Evaluations += r.Runs
+		if !r.Exhaustive {
+			rep.Exhaustive = false
+			rep.Notes = append(rep.Notes, dspecs[i].String()+": "+r.Capped)
+		}
+		for o, n := range r.Outcomes {
+			rep.Outcomes[dspecs[i].String()+" => "+o] += n
+		}
+		for _, s := range r.Infra {
+			rep.InfraError(s)
+		}
+		for _, f := range r.Found {
+			rep.Violation(f)
+		}
+	})
+	rep.Extra["notification_path_schedules"] = dRuns
+	rep.Extra["notification_path_deviation_bound"] = dBound
 	rep.Extra["cases"] = len(jobs)
 	rep.Extra["churn_x_fault_cases"] = nChurn
 	rep.Extra["reconfiguration_cases"] = len(jobs) - nChurn
